@@ -4,7 +4,7 @@ import json, os, subprocess
 V = os.path.dirname(os.path.dirname(os.path.abspath(__file__)))
 
 CHECKS = {
- "C01": ("exploration", "Differential monitor: millions of hostile-operand field operations per run (all prime/scalar/binary field types, raw redundant representations, solved operands on carry/fold/borrow boundaries, chains, representation-independence batches) executed by the real library in 3 (quick) / 6 (thorough) backend builds and compared with Python big-integer / GF(2)-polynomial arithmetic. Held = no disagreement on the executions observed; boundary classes observed are listed in the evidence.",
+ "C01": ("exploration", "Differential monitor: millions of hostile-operand field operations per run (all prime/scalar/binary field types, raw redundant representations, solved operands on carry/fold/borrow boundaries, chains, representation-independence batches) executed by the real library in 5 (quick) / 6 (thorough) backend builds and compared with Python big-integer / GF(2)-polynomial arithmetic. Held = no disagreement on the executions observed; boundary classes observed are listed in the evidence.",
          "Python int arithmetic; moduli constants (cross-checked against the library's MINUS_ONE at start); the host CPU executing the same code paths as a user's build", "differential testing against an independent big-integer oracle under hostile operand generation", "4 C01"),
 
  "C02": ("exploration", "Dynamic taint tracking of the optimized machine code: every listed entry point (field/scalar ops incl. division, sqrt, Legendre, batch inversion, decoders, selects and lookups with secret control words; group ops, scalar multiplications, decoding of secret bytes; key generation, signing, ECDH, X25519/X448, hashes on secret data) runs under valgrind memcheck with the secret inputs marked undefined; every conditional jump or memory address depending on a secret bit is reported and must be either a documented source-level declassification (ct_declassified.json) or a violation. A built-in leaky self-test must be detected or the run is inconclusive. Quick: default and w32 builds; thorough: all six builds.",
@@ -29,7 +29,7 @@ CHECKS = {
  "C07": ("exploration", "Ed25519/Ed448 verification on honest signatures (byte-equal to RFC 8032), constructed tuples with torsion components in A and R (accepted only by the cofactored rule), low-order keys/R, and invalid neighbours (S+L, S near L, non-canonical encodings, x=0 with sign bit, lengths, bit flips) for pure/ctx/ph variants, judged by an independent strict cofactored RFC 8032 predicate.",
          "ref_ed RFC 8032 implementation (RFC vectors + repository KATs); contexts > 255 bytes are outside the documented domain", "differential testing against a reference predicate on constructed adversarial tuples", "4 C07"),
  "C08": ("exploration", "ECDSA P-256/secp256k1: deterministic signatures byte-equal to the documented nonce derivation (RFC 6979 + extra input; SHA-512 scheme for secp256k1) for hash lengths 0..70; verification on signatures manufactured with chosen s by the forged-hash construction, the infinity outcome, out-of-range r/s, all length/padding forms, judged by the textbook predicate.",
-         "ref_weier (RFC 6979 A.2.5 vectors, repository KATs); x(R) in [n,p) not reachable (2^-128)", "differential testing against a reference predicate and reference signer", "4 C08"),
+         "ref_weier (RFC 6979 A.2.5 vectors, repository KATs); signatures with x(R) in [n,p) are constructed backwards from R with a derived public key", "differential testing against a reference predicate and reference signer", "4 C08"),
  "C09": ("exploration", "jq255e/jq255s/GLS254 Schnorr: deterministic and seeded signatures byte-equal to the reference, randomized ones accepted by the reference verifier, tampered signatures judged by it; ECDH both directions, failure inputs give status 0 and the documented substitute key that depends on the local secret.",
          "ref_do / ref_gls (all repository KATs)", "differential testing against reference signer/verifier/ECDH", "4 C09"),
  "C13": ("exploration", "Truncated signatures: completeness (exact reconstruction for rm 8..32 and all fills of the ignored bits, with ground extreme hidden parts for rm <= 13), soundness (anything returned verifies under the reference verifier and is a completion of the supplied prefix; corrupted prefixes, the other ECDSA root, true s just below n), prepare_truncate on boundary/short forms, and complete recomputation of the 16385-entry UX_COMP table via the hook.",
